@@ -107,7 +107,7 @@ pub enum Cmd {
     UGet(String, bool),
     /// unmanaged: add / try_add (object, mode)
     UAdd(u32, String),
-    /// resume from a schedule point; for the retain walk: ids the predicate keeps
+    /// resume from a schedule point; for the retain walk: the predicate's answers (1 = keep) by call number
     Go(Option<Vec<u32>>),
     Outcome(Outcome),
     Resume(Outcome),
@@ -709,8 +709,9 @@ fn task_main(ix: usize, sh: Arc<Shared>, cmd_rx: Receiver<Cmd>, rep_tx: Sender<(
                                 t.metric_faults.push(msg);
                             }
                             drop(t);
+                            // a stateful predicate: the n-th call is answered from the n-th entry of the script
                             match cc.keep.borrow().as_ref() {
-                                Some(k) => k.contains(&o.id),
+                                Some(k) => k.get(n - 1).map(|b| *b != 0).unwrap_or(true),
                                 None => true,
                             }
                         });
